@@ -1,11 +1,14 @@
 /-
 C16 — the interval-size bound is a sound approximation.
-Proved in full for any day level meeting `EnvOK` and any bound `−1 day ≤ B ≤ TimeDelta::MAX − 1 day`
-(`OH/Props/C02A.lean`), comparing `env` with the same day level without bound.  `…_partial`: Layer B
-hypothesis `EnvOK (envOf ctx e)`; and the comparison is with `unbounded (envOf ctx e)`, which is
+Proved in full for any day level meeting `EnvOK` and EVERY bound `B` (negative, zero, `TimeDelta::MAX`
+included) (`OH/Props/C02A.lean`), comparing `env` with the same day level without bound.  `…_partial`:
+Layer B hypothesis `EnvOK (envOf ctx e)`; and the comparison is with `unbounded (envOf ctx e)`, which is
 `envOf {ctx with bound := none} e` because the day level never reads the bound (`envOf_unbounded`, by `rfl`).
-Outside that range of bounds the property is FALSE of the code: `bound_overflow_panics`
-(B > TimeDelta::MAX − 1 day panics) and `bound_below_minus_one_day_diverges` (B < −1 day: endless stream).
+`hfit` in `C16_next_change_partial` is `B + 1 day ≤ TimeDelta::MAX` OR `t ≥ NaiveDateTime::MIN`: the second
+alternative holds for every real instant (the model's instants are unbounded integers), so it is no
+restriction on the property.  For `B < 0`: `next_change` is always `none` (`C16_negative_bound_partial`).
+History: the original code hung for `B < −1 day` and panicked for `B > TimeDelta::MAX − 1 day`; repaired in
+the repository ("fix: an interval-size bound below -1 day or close to TimeDelta::MAX must not hang or panic").
 -/
 import OH.Props.C02
 namespace OH.Props.C16
@@ -15,21 +18,25 @@ open OH.Model OH.Model.Cal OH.Props.C02
 theorem envOf_unbounded (ctx : Ctx) (e : Expr) :
     envOf { ctx with bound := none } e = C02A.unbounded (envOf ctx e) := rfl
 
-theorem C16_state_unchanged_partial {ctx : Ctx} {e : Expr} (ok : DayLevelOK ctx e) {B : Int}
-    (hB : ctx.bound = some B) (hlo : -nsPerDay ≤ B) (hhi : B + nsPerDay ≤ deltaMax)
-    {t : Int} (hrep : t + nsPerMin ≤ instMax) :
+/-- `state` is unchanged: every bound, every instant -/
+theorem C16_state_unchanged_partial {ctx : Ctx} {e : Expr} (ok : DayLevelOK ctx e) (t : Int) :
     state ctx e t = state { ctx with bound := none } e t :=
-  C02A.bounded_state_unchanged ok hB hlo hhi hrep
+  C02A.bounded_state_unchanged ok t
 
 theorem C16_next_change_partial {ctx : Ctx} {e : Expr} (ok : DayLevelOK ctx e) {B : Int}
-    (hB : ctx.bound = some B) (hlo : -nsPerDay ≤ B) (hhi : B + nsPerDay ≤ deltaMax)
-    {t : Int} {x : Option Int} (hx : nextChange { ctx with bound := none } e t = .ok x) :
+    (hB : ctx.bound = some B) {t : Int} (hfit : B + nsPerDay ≤ deltaMax ∨ instMin ≤ t)
+    {x : Option Int} (hx : nextChange { ctx with bound := none } e t = .ok x) :
     ∃ y, nextChange ctx e t = .ok y
       ∧ (y = x ∨ y = none)
       ∧ (∀ c, x = some c → c - t ≤ B - nsPerDay → y = x)
       ∧ (∀ c, x = some c → c - t > B → y = none)
       ∧ (x = none → y = none) :=
-  C02A.bounded_nextChange ok hB hlo hhi hx
+  C02A.bounded_nextChange ok hB hfit hx
+
+/-- a negative bound: `next_change` is `none` at every instant -/
+theorem C16_negative_bound_partial {ctx : Ctx} {e : Expr} (ok : DayLevelOK ctx e) {B : Int}
+    (hB : ctx.bound = some B) (hneg : B < 0) (t : Int) : nextChange ctx e t = .ok none :=
+  C02A.negative_bound_nextChange ok hB hneg t
 
 /-- non-vacuity of the Layer B hypothesis (the bounded instance of Layer A is `C02A`'s `weekEnv` example) -/
 example : DayLevelOK Ctx.default [] := envOK_nil
